@@ -1,4 +1,5 @@
 """Shared driver for the World-A (Cell API) properties."""
+import os
 import copy
 import json
 
@@ -93,8 +94,9 @@ def run_configs(ctx, configs, nontrivial_keys, rule, assumptions,
         res = statex.bfs(spec, depth, max_dev=max_dev, workers=ctx.workers,
                          time_cap=per_cfg_budget, progress=ctx.log,
                          init_histories=cfg.get('seeds', ((),)),
-                         bisim_depth=cfg.get(
-                             'bisim_depth', 0 if ctx.quick else 2))
+                         bisim_depth=int(os.environ.get(
+                             'VERIF_BISIM', cfg.get(
+                                 'bisim_depth', 0 if ctx.quick else 2))))
         cov['states'] += res.states
         cov['transitions'] += res.transitions
         cov['configs'][name] = {
